@@ -10,18 +10,24 @@ Variable c : cfg.
 
 (* ---- __setitem__(slice) ---------------------------------------------------- *)
 
-Lemma add_all_spec : forall es s i done s' out, BInv c s -> NoDup done -> (forall x, In x done -> mem s i x) ->
-  add_all c s i es done = (s', out) ->
+Lemma order_of_set_order : forall s i o o', order_of s i = Some o -> order_of (set_order s i o') i = Some o'.
+Proof.
+  intros s i o o' H. destruct (order_of_some s i o H) as [st [N _]].
+  destruct (set_order_lookup s i o' st N) as [L _]. unfold order_of. rewrite L. reflexivity.
+Qed.
+
+Lemma add_all_spec : forall es s i o0 done cur s' out, BInv c s -> NoDup done -> (forall x, In x done -> mem s i x) ->
+  order_of s i = Some cur -> add_all c s i o0 es done = (s', out) ->
   match out with
-  | Err x => x <> EInternal /\ BInv c s' /\ same_shells s s' /\
+  | Err x => x <> EInternal /\ BInv c s' /\ shells_except i s s' /\ order_of s' i = Some o0 /\
              (forall j x, mem s' j x <-> mem s j x /\ ~ (j = i /\ In x done))
-  | _ => BInv c s' /\ same_shells s s' /\
+  | _ => BInv c s' /\ shells_except i s s' /\ order_of s' i = Some (cur ++ es) /\
          (forall j x, mem s' j x <-> mem s j x \/ (j = i /\ In x es)) /\
          NoDup es /\ (forall x, In x es -> forall j, ~ mem s j x)
   end.
 Proof.
-  induction es as [|e r IH]; intros s i done s' out B ND HD H; simpl in H.
-  - inversion H; subst s' out. split; auto. split; [apply same_shells_refl|]. split.
+  induction es as [|e r IH]; intros s i o0 done cur s' out B ND HD OC H; simpl in H.
+  - inversion H; subst s' out. split; auto. split; [intros j _; reflexivity|]. split; [rewrite app_nil_r; exact OC|]. split.
     + intros j x. split; auto. intros [X|[_ []]]. exact X.
     + split; [constructor|]. intros x [].
   - destruct (ns_add c s i e) as [s1 o1] eqn:A. assert (R := ns_add_spec c s i e s1 o1 B A).
@@ -29,47 +35,58 @@ Proof.
        (forall x, x <> e -> elems s1 x = elems s x) /\ e_parent (elems s e) = None /\ gen s <= gen s1 /\
        (exists st, nth_error (sets s) i = Some st /\ (s_hooks st = None -> e_key (elems s1 e) = e_key (elems s e)) /\
                    (s_hooks st <> None -> e_key (elems s e) = None)) ->
-       add_all c s1 i r (e :: done) = (s', out) ->
+       add_all c (match order_of s1 i with Some o => set_order s1 i (o ++ [e]) | None => s1 end) i o0 r (e :: done) = (s', out) ->
        match out with
-       | Err x => x <> EInternal /\ BInv c s' /\ same_shells s s' /\
+       | Err x => x <> EInternal /\ BInv c s' /\ shells_except i s s' /\ order_of s' i = Some o0 /\
                   (forall j x, mem s' j x <-> mem s j x /\ ~ (j = i /\ In x done))
-       | _ => BInv c s' /\ same_shells s s' /\
+       | _ => BInv c s' /\ shells_except i s s' /\ order_of s' i = Some (cur ++ e :: r) /\
               (forall j x, mem s' j x <-> mem s j x \/ (j = i /\ In x (e :: r))) /\
               NoDup (e :: r) /\ (forall x, In x (e :: r) -> forall j, ~ mem s j x)
        end).
     { intros [B1 [SH [HM [_ [PF _]]]]] H1.
+      assert (OC1 : order_of s1 i = Some cur) by (rewrite (order_of_shells s s1 i SH); exact OC).
+      rewrite OC1 in H1. set (s1' := set_order s1 i (cur ++ [e])) in *.
+      assert (B1' : BInv c s1') by (apply set_order_BInv; exact B1).
+      assert (HM1 : forall j x, mem s1' j x <-> mem s j x \/ j = i /\ x = e).
+      { intros j x. unfold s1'. rewrite set_order_mem. apply HM. }
+      assert (SX : shells_except i s s1').
+      { apply (shells_except_trans i s s1); [apply same_shells_except; exact SH|apply set_order_except]. }
+      assert (OC1' : order_of s1' i = Some (cur ++ [e])) by (apply (order_of_set_order s1 i cur); exact OC1).
       assert (FR : forall j, ~ mem s j e) by (apply (free_not_mem c s e B PF)).
-      assert (R1 := IH s1 i (e :: done) s' out B1).
       assert (ND' : NoDup (e :: done)). { constructor; auto. intro X. apply (FR i). apply HD. exact X. }
-      assert (HD' : forall x, In x (e :: done) -> mem s1 i x).
-      { intros x [X|X]; apply HM; [right; auto|left; apply HD; exact X]. }
-      specialize (R1 ND' HD' H1). destruct out as [|v|er].
-      - destruct R1 as [B2 [SH2 [HM2 [ND2 FR2]]]]. split; auto. split; [eapply same_shells_trans; eauto|].
-        split; [|split].
-        + intros j x. rewrite HM2, HM. simpl. intuition.
-        + constructor; auto. intro X. apply (FR2 e X i). apply HM. right. auto.
-        + intros x [X|X] j; [subst; apply FR|]. intro Y. apply (FR2 x X j). apply HM. left. exact Y.
-      - destruct R1 as [B2 [SH2 [HM2 [ND2 FR2]]]]. split; auto. split; [eapply same_shells_trans; eauto|].
-        split; [|split].
-        + intros j x. rewrite HM2, HM. simpl. intuition.
-        + constructor; auto. intro X. apply (FR2 e X i). apply HM. right. auto.
-        + intros x [X|X] j; [subst; apply FR|]. intro Y. apply (FR2 x X j). apply HM. left. exact Y.
-      - destruct R1 as [X1 [B2 [SH2 HM2]]]. split; auto. split; auto. split; [eapply same_shells_trans; eauto|].
-        intros j x. rewrite HM2, HM. simpl. split.
+      assert (HD' : forall x, In x (e :: done) -> mem s1' i x).
+      { intros x [X|X]; apply HM1; [right; auto|left; apply HD; exact X]. }
+      assert (R1 := IH s1' i o0 (e :: done) (cur ++ [e]) s' out B1' ND' HD' OC1' H1). destruct out as [|v|er].
+      - destruct R1 as [B2 [SH2 [O2 [HM2 [ND2 FR2]]]]]. split; auto. split; [eapply shells_except_trans; eauto|].
+        split; [rewrite O2, <- app_assoc; reflexivity|]. split; [|split].
+        + intros j x. rewrite HM2, HM1. simpl. intuition.
+        + constructor; auto. intro X. apply (FR2 e X i). apply HM1. right. auto.
+        + intros x [X|X] j; [subst; apply FR|]. intro Y. apply (FR2 x X j). apply HM1. left. exact Y.
+      - destruct R1 as [B2 [SH2 [O2 [HM2 [ND2 FR2]]]]]. split; auto. split; [eapply shells_except_trans; eauto|].
+        split; [rewrite O2, <- app_assoc; reflexivity|]. split; [|split].
+        + intros j x. rewrite HM2, HM1. simpl. intuition.
+        + constructor; auto. intro X. apply (FR2 e X i). apply HM1. right. auto.
+        + intros x [X|X] j; [subst; apply FR|]. intro Y. apply (FR2 x X j). apply HM1. left. exact Y.
+      - destruct R1 as [X1 [B2 [SH2 [O2 HM2]]]]. split; auto. split; auto. split; [eapply shells_except_trans; eauto|].
+        split; auto. intros j x. rewrite HM2, HM1. simpl. split.
         + intros [[X|[X1' X2]] Y]; [split; auto; intros [Z W]; apply Y; auto|]. exfalso. apply Y. auto.
         + intros [X Y]. split; auto. intros [Z [W|W]]; [subst; apply (FR i); exact X|apply Y; auto]. }
     destruct o1 as [|v|x].
     + apply GO; auto.
     + apply GO; auto.
     + destruct R as [P X]. clear GO.
-      destruct (remove_all c s1 i (rev done)) as [s2 o2] eqn:RA.
-      destruct (remove_all_spec c (rev done) s1 i s2 o2) as [E2 [B2 [SH2 HM2]]]; auto.
-      * eapply pub_eq_BInv; eauto.
+      assert (OC1 : order_of s1 i = Some cur) by (rewrite (order_of_shells s s1 i (pub_eq_shells s s1 P)); exact OC).
+      set (s1r := set_order s1 i o0) in *.
+      destruct (remove_all c s1r i (rev done)) as [s2 o2] eqn:RA.
+      destruct (remove_all_spec c (rev done) s1r i s2 o2) as [E2 [B2 [SH2 HM2]]]; auto.
+      * apply set_order_BInv. eapply pub_eq_BInv; eauto.
       * apply NoDup_rev. exact ND.
-      * intros y Y. apply (pub_eq_mem s s1 i y P). apply HD. apply in_rev. exact Y.
-      * subst o2. inversion H; subst s' out. split; auto. split; auto.
-        split; [eapply same_shells_trans; [apply pub_eq_shells; exact P|exact SH2]|].
-        intros j y. rewrite HM2. rewrite (pub_eq_mem s s1 j y P). rewrite <- in_rev. tauto.
+      * intros y Y. unfold s1r. rewrite set_order_mem. apply (pub_eq_mem s s1 i y P). apply HD. apply in_rev. exact Y.
+      * subst o2. inversion H; subst s' out. split; auto. split; auto. split; [|split].
+        -- apply (shells_except_trans i s s1); [apply same_shells_except; apply pub_eq_shells; exact P|].
+           apply (shells_except_trans i s1 s1r); [apply set_order_except|apply same_shells_except; exact SH2].
+        -- rewrite (order_of_shells s1r s2 i SH2). apply (order_of_set_order s1 i cur). exact OC1.
+        -- intros j y. rewrite HM2. unfold s1r. rewrite set_order_mem. rewrite (pub_eq_mem s s1 j y P). rewrite <- in_rev. tauto.
 Qed.
 
 Lemma good_setslice : forall s i a b es, Inv c s -> good c s (set_setslice c s i a b es) false.
@@ -82,24 +99,24 @@ Proof.
   destruct (slice_parts o lo hi L N1) as [P1 [P2 [P3 [D1 [D2 [D3 PE]]]]]].
   set (pre := firstn lo o) in *. set (del := firstn (hi - lo) (skipn lo o)) in *. set (post := skipn hi o) in *.
   set (new := firstn (List.length del) es).
-  destruct (add_all c s i new []) as [s1 o1] eqn:A.
-  assert (R := add_all_spec new s i [] s1 o1 B (NoDup_nil _) (fun x (X : In x []) => match X with end) A).
-  assert (GO : BInv c s1 /\ same_shells s s1 /\ (forall j x, mem s1 j x <-> mem s j x \/ (j = i /\ In x new)) /\
+  destruct (add_all c s i o new []) as [s1 o1] eqn:A.
+  assert (R := add_all_spec new s i o [] o s1 o1 B (NoDup_nil _) (fun x (X : In x []) => match X with end) OO A).
+  assert (GO : BInv c s1 /\ shells_except i s s1 /\ order_of s1 i = Some (o ++ new) /\
+               (forall j x, mem s1 j x <-> mem s j x \/ (j = i /\ In x new)) /\
                NoDup new /\ (forall x, In x new -> forall j, ~ mem s j x) ->
                good c s (remove_all c (set_order s1 i (pre ++ new ++ post)) i del) false).
-  { intros [B1 [SH [HM [NDn FRn]]]].
+  { intros [B1 [SH [OO1 [HM [NDn FRn]]]]].
     set (s2 := set_order s1 i (pre ++ new ++ post)).
     assert (B2 : BInv c s2) by (apply set_order_BInv; exact B1).
     destruct (remove_all c s2 i del) as [s3 o3] eqn:RA.
     destruct (remove_all_spec c del s2 i s3 o3 B2 P2) as [E3 [B3 [SH3 HM3]]]; auto.
     { intros x X. unfold s2. rewrite set_order_mem, HM. left. apply N2. apply PE. auto. }
     subst o3. split; [|split; [discriminate|intro; discriminate]]. simpl.
-    destruct (order_of_some s i o OO) as [st [Ni SO]].
-    destruct (shell_lookup s s1 i st SH Ni) as [st1 [Ni1 _]].
+    destruct (order_of_some s1 i _ OO1) as [st1 [Ni1 _]].
     destruct (set_order_lookup s1 i (pre ++ new ++ post) st1 Ni1) as [L1 _]. fold s2 in L1.
     assert (NEWO : forall x, In x new -> ~ In x o). { intros x X Y. apply (FRn x X i). apply N2. exact Y. }
     apply (Inv_keep c s s3 i); auto.
-    - apply (shells_except_trans i s s1); [apply same_shells_except; exact SH|].
+    - apply (shells_except_trans i s s1); [exact SH|].
       apply (shells_except_trans i s1 s2); [apply set_order_except|apply same_shells_except; exact SH3].
     - intros j x D. rewrite HM3. unfold s2. rewrite set_order_mem, HM. split; [intros [[X|[X _]] _]; auto; contradiction|].
       intro X. split; auto. intros [Y _]. contradiction.
@@ -119,12 +136,11 @@ Proof.
   unfold bind. destruct o1 as [|v|er].
   - apply GO. exact R.
   - apply GO. exact R.
-  - destruct R as [X [B1 [SH HM]]]. split; [|split; [intro E; inversion E; contradiction|intro; discriminate]]. simpl.
+  - destruct R as [X [B1 [SH [OO1 HM]]]]. split; [|split; [intro E; inversion E; contradiction|intro; discriminate]]. simpl.
     apply (Inv_keep c s s1 i); auto.
-    + apply same_shells_except. exact SH.
     + intros j x D. rewrite HM. tauto.
-    + intros st1 o1 N1' SO1. destruct (shell_lookup_rev s s1 i st1 SH N1') as [st [Ni SHE]].
-      unfold shell in SHE. assert (order_of s i = Some o1). { unfold order_of. rewrite Ni. congruence. }
+    + intros st1 o1 N1' SO1.
+      assert (order_of s1 i = Some o1). { unfold order_of. rewrite N1'. exact SO1. }
       assert (o1 = o) by congruence. subst o1. split; auto. intro x. rewrite HM, N2. tauto.
 Qed.
 
